@@ -1,28 +1,24 @@
 /-
 Props/C07_OggInject.lean — C07 "Saving unchanged tags is lossless and idempotent" for the Ogg formats
 (Vorbis, Opus, Speex, Theora): saving a second time leaves the file byte-identical.
-Model: Model/Container/OggInject.lean, lemmas: Proofs/Container/OggInject.lean.
+Model: Model/Container/OggInject.lean, lemmas: Proofs/Container/OggInject.lean, OggRead.lean.
 
-What is proved is the fixed point: a save that would write the comment packet that is already in the
-file changes nothing.  The full statement (`ogg_save_twice_statement`) is not proved: it needs the
-first save's output decomposed into a `Layout` again (the run of the second save is in general not
-the run the first one wrote), and — as stated, for all sizes — it is not even true: the `size` handed
-to the default policy is "file size minus old packet" and so includes the paging overhead of the old
-run, which a re-paginated run no longer has (see the note at the end).
+Two levels.  The fixed point: a save that would write the comment packet that is already in the file
+changes nothing (`ogg_save_same_packet_unchanged`).  The two-save statement: the first save's output is
+decomposed into a layout again (`second_layout`: same pages in front, the run of the second save = the
+new pages up to the first closed one, tidy, first packet = the new comment packet), so the second save is
+that fixed point as soon as it builds the same packet — `ogg_second_save_identical` (default policy: when
+the padding the first save wrote is within the policy's upper bound for the new file, 10 KiB + 1 % of
+what follows; without a bound the statement is false, see the note at the end),
+`ogg_second_save_identical_small` (padding of at most 10 KiB: no other condition),
+`ogg_second_save_identical_opus_preserved`, `ogg_second_save_identical_callback`.
 -/
-import MutagenModel.Proofs.Container.OggInject
+import MutagenModel.Proofs.Container.OggRead
 set_option linter.unusedVariables false
 namespace Mutagen.C07
 open Mutagen Mutagen.Ogg Mutagen.OggInj
 
 /-! ## Ogg: the second save -/
-
-/-- the full statement: whatever the first save with the default policy wrote, a second save of the
-same comment writes again.  NOT PROVED (see the header). -/
-def ogg_save_twice_statement : Prop :=
-  ∀ (c : Codec) (L : Layout), L.OK c → L.c1.continued = false → contOK false (stream L.serial L.pages) →
-    ∀ (vc padData out1 : Bytes), save c L.render vc padData .default = .ok out1 →
-      save c out1 vc padData .default = .ok out1
 
 /-- the fixed point (any padding choice): on a tidy layout — the run as mutagen writes it: no reserved
 flag bits, consecutive page numbers, first/last flags only at its ends — a save whose new comment
@@ -78,13 +74,120 @@ example : Example.layout.Tidy ∧
   simp [Layout.oldPages, Example.layout] at ho
   subst ho; rfl
 
-/-! Note on `ogg_save_twice_statement`.  With the default policy the first save keeps the spare bytes
-`pl` when `0 ≤ pl ≤ high(size)`, else writes `low(size) = 1024 + size/1000`; `size = filesize − len(old
-packet)`.  If it keeps them, the packet keeps its length, the run its layout, `size` its value: the
-second save is the fixed point above.  If it writes `low(size)`, the run is re-paginated with 4096-byte
-pages and the second save is told `size' = size − (old paging overhead − new paging overhead)`; it
-keeps the padding iff `low(size) ≤ high(size') = 10240 + size'/100`, which fails only when the old run's
-paging overhead exceeds about 9.2 MB + 9 × (rest of the file), i.e. for a comment packet of the order of
-a gigabyte on small pages.  The tie harness checks the second save on every plain layout it generates. -/
+/-! ### two saves -/
+
+/-- two saves with the same padding choice: on a well-formed layout (stream flags consistent, numbered
+without gaps, last page complete), if the second save — run on the first save's output, whose run of
+comment pages is in general not the run of the input — builds the comment packet the first one wrote,
+it returns the first save's output byte for byte -/
+theorem ogg_second_save_fixed (c : Codec) (hc : c ≠ .flac) (L : Layout) (h : L.OK c) (hfresh : L.c1.continued = false)
+    (hflags : contOK false (stream L.serial L.pages))
+    (a : Nat) (hnum : (stream L.serial L.pages).map (·.sequence) = List.range' a (stream L.serial L.pages).length)
+    (hend : ∀ l, (stream L.serial L.pages).getLast? = some l → l.complete = true)
+    (vc padData : Bytes) (pad : PadChoice) (old0 new0 : Bytes) (others : List Bytes) (new : List Page)
+    (hpk : toPackets L.oldPages false = .ok (old0 :: others))
+    (hnp : newPacket c old0 vc padData pad L.render.length = .ok new0)
+    (hnew : newPages c (new0 :: others) L.oldPages = .ok new)
+    (hseq : L.c1.sequence + new.length + (L.post.filter (·.serial = L.serial)).length ≤ 2 ^ 32)
+    (hfix : newPacket c new0 vc padData pad (renderPages (L.after new)).length = .ok new0) :
+    ∃ out, save c L.render vc padData pad = .ok out ∧ save c out vc padData pad = .ok out :=
+  ⟨_, save_twice c hc L h hfresh hflags a hnum hend vc padData pad old0 new0 others new hpk hnp hnew hseq hfix⟩
+
+/-- C07 for Ogg, default policy: save, then save the same comment again — the second save returns the
+first one's output byte for byte, provided the padding the first save wrote (`new0` minus prefix and
+comment) is not above the policy's upper bound for the new file: 10 KiB + 1 % of (new file size − new
+comment packet).  The first save writes either the spare bytes it found (at most 10 KiB + 1 % of the old
+"size") or 1 KiB + 0.1 % of it, so the bound can fail only if re-paginating shrank the file's paging
+overhead by more than nine times the rest of the file plus 9 MB. -/
+theorem ogg_second_save_identical (c : Codec) (hc : c ≠ .flac) (L : Layout) (h : L.OK c) (hfresh : L.c1.continued = false)
+    (hflags : contOK false (stream L.serial L.pages))
+    (a : Nat) (hnum : (stream L.serial L.pages).map (·.sequence) = List.range' a (stream L.serial L.pages).length)
+    (hend : ∀ l, (stream L.serial L.pages).getLast? = some l → l.complete = true)
+    (vc padData : Bytes) (hpd : c = .opus → padData = []) (old0 new0 : Bytes) (others : List Bytes) (new : List Page)
+    (hpk : toPackets L.oldPages false = .ok (old0 :: others))
+    (hnp : newPacket c old0 vc padData .default L.render.length = .ok new0)
+    (hnew : newPages c (new0 :: others) L.oldPages = .ok new)
+    (hseq : L.c1.sequence + new.length + (L.post.filter (·.serial = L.serial)).length ≤ 2 ^ 32)
+    (hbound : new0.length - (c.commentPrefix ++ vc).length ≤
+      10240 + ((renderPages (L.after new)).length - new0.length) / 100) :
+    ∃ out, save c L.render vc padData .default = .ok out ∧ save c out vc padData .default = .ok out := by
+  apply ogg_second_save_fixed c hc L h hfresh hflags a hnum hend vc padData .default old0 new0 others new hpk hnp hnew hseq
+  rw [newPacket_padded c hc _ vc padData hpd] at hnp
+  simp only [Except.ok.injEq] at hnp
+  generalize hp : (getPadding .default ((old0.length : Int) - ((c.commentPrefix ++ vc).length : Int)) (L.render.length - old0.length)).toNat = p at hnp
+  subst hnp
+  rw [newPacket_padded c hc _ vc padData hpd]
+  have : (getPadding .default (((c.commentPrefix ++ vc ++ zeros p).length : Int) - ((c.commentPrefix ++ vc).length : Int))
+      ((renderPages (L.after new)).length - (c.commentPrefix ++ vc ++ zeros p).length)).toNat = p := by
+    simp only [getPadding, Generated.defaultPadding, List.length_append, length_zeros] at hbound ⊢
+    split
+    · split
+      · omega
+      · omega
+    · omega
+  rw [this]
+
+/-- the same without any condition on sizes when the first save wrote at most 10 KiB of padding -/
+theorem ogg_second_save_identical_small (c : Codec) (hc : c ≠ .flac) (L : Layout) (h : L.OK c) (hfresh : L.c1.continued = false)
+    (hflags : contOK false (stream L.serial L.pages))
+    (a : Nat) (hnum : (stream L.serial L.pages).map (·.sequence) = List.range' a (stream L.serial L.pages).length)
+    (hend : ∀ l, (stream L.serial L.pages).getLast? = some l → l.complete = true)
+    (vc padData : Bytes) (hpd : c = .opus → padData = []) (old0 new0 : Bytes) (others : List Bytes) (new : List Page)
+    (hpk : toPackets L.oldPages false = .ok (old0 :: others))
+    (hnp : newPacket c old0 vc padData .default L.render.length = .ok new0)
+    (hnew : newPages c (new0 :: others) L.oldPages = .ok new)
+    (hseq : L.c1.sequence + new.length + (L.post.filter (·.serial = L.serial)).length ≤ 2 ^ 32)
+    (hsmall : new0.length - (c.commentPrefix ++ vc).length ≤ 10240) :
+    ∃ out, save c L.render vc padData .default = .ok out ∧ save c out vc padData .default = .ok out :=
+  ogg_second_save_identical c hc L h hfresh hflags a hnum hend vc padData hpd old0 new0 others new hpk hnp hnew hseq (by omega)
+
+/-- Opus with preserved data: the packet is comment plus that data both times, no bound needed -/
+theorem ogg_second_save_identical_opus_preserved (L : Layout) (h : L.OK .opus) (hfresh : L.c1.continued = false)
+    (hflags : contOK false (stream L.serial L.pages))
+    (a : Nat) (hnum : (stream L.serial L.pages).map (·.sequence) = List.range' a (stream L.serial L.pages).length)
+    (hend : ∀ l, (stream L.serial L.pages).getLast? = some l → l.complete = true)
+    (vc padData : Bytes) (hpd : padData ≠ []) (pad : PadChoice) (old0 : Bytes) (others : List Bytes) (new : List Page)
+    (hpk : toPackets L.oldPages false = .ok (old0 :: others))
+    (hnew : newPages .opus ((magicOpusTags ++ vc ++ padData) :: others) L.oldPages = .ok new)
+    (hseq : L.c1.sequence + new.length + (L.post.filter (·.serial = L.serial)).length ≤ 2 ^ 32) :
+    ∃ out, save .opus L.render vc padData pad = .ok out ∧ save .opus out vc padData pad = .ok out :=
+  ogg_second_save_fixed .opus (by decide) L h hfresh hflags a hnum hend vc padData pad old0 _ others new hpk
+    (newPacket_opus_preserved _ vc padData hpd pad _) hnew hseq (newPacket_opus_preserved _ vc padData hpd pad _)
+
+/-- a padding callback that answers the same number both times (e.g. a constant, as `delete` uses):
+two saves, same file -/
+theorem ogg_second_save_identical_callback (c : Codec) (hc : c ≠ .flac) (L : Layout) (h : L.OK c) (hfresh : L.c1.continued = false)
+    (hflags : contOK false (stream L.serial L.pages))
+    (a : Nat) (hnum : (stream L.serial L.pages).map (·.sequence) = List.range' a (stream L.serial L.pages).length)
+    (hend : ∀ l, (stream L.serial L.pages).getLast? = some l → l.complete = true)
+    (vc padData : Bytes) (hpd : c = .opus → padData = []) (k : Int) (old0 new0 : Bytes) (others : List Bytes) (new : List Page)
+    (hpk : toPackets L.oldPages false = .ok (old0 :: others))
+    (hnp : newPacket c old0 vc padData (.callback fun _ _ => k) L.render.length = .ok new0)
+    (hnew : newPages c (new0 :: others) L.oldPages = .ok new)
+    (hseq : L.c1.sequence + new.length + (L.post.filter (·.serial = L.serial)).length ≤ 2 ^ 32) :
+    ∃ out, save c L.render vc padData (.callback fun _ _ => k) = .ok out ∧ save c out vc padData (.callback fun _ _ => k) = .ok out := by
+  apply ogg_second_save_fixed c hc L h hfresh hflags a hnum hend vc padData _ old0 new0 others new hpk hnp hnew hseq
+  rw [newPacket_padded c hc _ vc padData hpd] at hnp ⊢
+  exact hnp
+
+set_option maxRecDepth 100000 in
+/-- a whole instance, computed: the comment vendor "Xi", A=b saved twice into the example file (C02) with
+the default policy — the first save changes the file (the 4 spare bytes do not hold the comment: 1024
+bytes of padding are written, 189 bytes become 1222), the second returns the first one's output -/
+example : (save .vorbis Example.layout.render (Vorbis.encode [0x58, 0x69] [([0x41], [0x62])] true) [] .default).bind
+      (fun out => (save .vorbis out (Vorbis.encode [0x58, 0x69] [([0x41], [0x62])] true) [] .default).map
+        (fun out2 => (out2 == out, out == Example.layout.render, out.length, Example.layout.render.length))) =
+    .ok (true, false, 1222, 189) := by
+  decide +kernel
+
+/-! Note on the bound.  With the default policy the first save keeps the spare bytes `pl` when
+`0 ≤ pl ≤ high(size)`, else writes `low(size) = 1024 + size/1000`; `size = filesize − len(old packet)`.
+If it keeps them, the packet keeps its length, the run its layout, `size` its value: the bound holds.  If
+it writes `low(size)`, the run is re-paginated with 4096-byte pages and the second save is told
+`size' = size − (old paging overhead − new paging overhead)`; it keeps the padding iff
+`low(size) ≤ high(size') = 10240 + size'/100`, which fails only when the old run's paging overhead exceeds
+about 9.2 MB + 9 × (rest of the file), i.e. for a comment packet of the order of a gigabyte on small
+pages: there the unconditional statement is false, which is why `hbound` is a hypothesis.  The tie
+harness checks the second save on every plain layout it generates. -/
 
 end Mutagen.C07
